@@ -46,7 +46,7 @@ def valid_case(rng, several=False):
     return case
 
 
-FAULTS = ["bare-rods-wire-only-correlation", "power-missing-assembly", "outlet-temp-below-inlet", "bypass-gap-flow-fraction-out-of-range", "bypass-gap-loss-coeff-given", "bypass-fraction-one", "negative-shape-factor", "pinmodel-rfrac-out-of-range", "fuel-rfrac-out-of-range", "fuel-negative-porosity", "fuel-legacy-gap-too-thick", "power-duplicate-item", "spacergrid-cdd-coeff-count", "spacergrid-no-position-in-bundle", "zero-wire-pitch", "axial-regions-cover-core", "power-wrong-count-later-assembly", "power-short-later-assembly", "duct-zero-wall", "pins-do-not-fit", "wire-too-thick", "clad-too-thick", "zero-pin-pitch", "negative-pin-diameter", "zero-duct-ftf",
+FAULTS = ["bare-rods-wire-only-correlation", "bare-rods-zero-pitch-wire-only-correlation", "power-missing-assembly", "outlet-temp-below-inlet", "bypass-gap-flow-fraction-out-of-range", "bypass-gap-loss-coeff-given", "bypass-fraction-one", "negative-shape-factor", "pinmodel-rfrac-out-of-range", "fuel-rfrac-out-of-range", "fuel-negative-porosity", "fuel-legacy-gap-too-thick", "power-duplicate-item", "spacergrid-cdd-coeff-count", "spacergrid-no-position-in-bundle", "zero-wire-pitch", "axial-regions-cover-core", "power-wrong-count-later-assembly", "power-short-later-assembly", "duct-zero-wall", "pins-do-not-fit", "wire-too-thick", "clad-too-thick", "zero-pin-pitch", "negative-pin-diameter", "zero-duct-ftf",
           "duct-ge-pitch", "unequal-outer-ducts", "axial-regions-overlap", "axial-region-inverted", "missing-bc", "negative-flowrate",
           "unknown-material", "unknown-correlation", "negative-power", "power-gap-between-cells", "power-wrong-pin-count",
           "flow-gap-no-bypass", "zero-core-length", "odd-duct-values", "zero-step-request"]
@@ -218,12 +218,12 @@ def inject(rng, case, fault, lowfid=False, near=False, excess=0.01):
             t['bypass_gap_flow_fraction'] = rng.choice([-0.2, 1.5, 1.0, 3.0])
         else:
             t['bypass_gap_loss_coeff'] = rng.choice([0.5, 2.0, -1.0])
-    elif fault == "bare-rods-wire-only-correlation":
+    elif fault in ("bare-rods-wire-only-correlation", "bare-rods-zero-pitch-wire-only-correlation"):
         # no wire (diameter 0, whatever pitch is still written in the input) with a correlation that exists for wire-wrapped bundles only
         if t.get('use_low_fidelity_model'):
             return None
         t['wire_diameter'] = 0.0
-        if rng.random() < 0.5:
+        if fault == "bare-rods-zero-pitch-wire-only-correlation":
             t['wire_pitch'] = 0.0
         if rng.random() < 0.5:
             t['corr_friction'] = rng.choice(['NOV', 'REH', 'ENG', 'CTS'])
